@@ -732,6 +732,63 @@ def rule_r8(prog, res):
                             'the empty value itself')
 
 
+# ------------------------------------------------------------------- R9
+def rule_r9(prog, res):
+    res.rule('R9', 'dict documents find the request message under the name '
+             'the decorator gave it (element name: the method name also for '
+             'bare methods) and read a non-object message with the leaf '
+             'reader')
+    h = prog.cls('spyne.protocol.dictdoc.hier:HierDictDocument')
+    f = h.methods.get('deserialize')
+    if f is None:
+        raise AnalysisError('HierDictDocument.deserialize', 'not found')
+    gets = [c for c in calls_in(f.node) if call_name(c) == 'get' and
+            isinstance(c.func, ast.Attribute) and
+            unparse(c.func.value) in ('doc', 'ctx.in_body_doc') and c.args]
+    res.floor('R9', 'message lookups in HierDictDocument.deserialize',
+              len(gets), 1)
+    for c in gets:
+        k = c.args[0]
+        srcs = [unparse(k)]
+        if isinstance(k, ast.Name):
+            srcs += [unparse(a.value) for a in walk_no_defs(f.node)
+                     if isinstance(a, ast.Assign) and any(
+                         isinstance(t, ast.Name) and t.id == k.id
+                         for t in a.targets)]
+        ok = any('get_element_name' in s_ or 'sub_name' in s_ for s_ in srcs)
+        where = '%s:%d' % (f.module.relpath, c.lineno)
+        res.ob('R9', where, 'deserialize looks the message up under %s' %
+               srcs[-1][:50], 'ok' if ok else 'VIOLATED')
+        if not ok:
+            res.finding('R9', 'HierDictDocument.deserialize|message-key',
+                        where, 'the request message is looked up under %s: '
+                        'for a bare method the message class is the argument '
+                        'type (type name P) while the key on the wire is the '
+                        'method name (its sub_name), so the arguments are '
+                        'read as missing; NullServer delivers them' %
+                        srcs[-1][:50])
+    objs = [c for c in calls_in(f.node) if call_name(c) == '_doc_to_object']
+    res.floor('R9', 'object reads in HierDictDocument.deserialize', len(objs),
+              1)
+    for c in objs:
+        st = c
+        while not isinstance(st, ast.stmt):
+            st = st._parent
+        atoms = guardspec.atoms_at(st, f.node)
+        ok = any('ComplexModelBase' in t and pol for t, pol in atoms)
+        where = '%s:%d' % (f.module.relpath, c.lineno)
+        res.ob('R9', where, 'deserialize reads the message as an object %s' %
+               ('only when its class is complex' if ok else
+                'whatever its class'), 'ok' if ok else 'VIOLATED')
+        if not ok:
+            res.finding('R9', 'HierDictDocument.deserialize|leaf-message',
+                        where, 'the message is always read with '
+                        '_doc_to_object: a bare method whose argument is a '
+                        'primitive raises AttributeError out of the request '
+                        '(Unicode has no _type_info) although NullServer '
+                        'accepts the same call')
+
+
 def run(prog, res, tier):
     res.run_rule(rule_r1, prog, res)
     res.run_rule(rule_r2, prog, res)
@@ -741,6 +798,7 @@ def run(prog, res, tier):
     res.run_rule(rule_r6, prog, res)
     res.run_rule(rule_r7, prog, res)
     res.run_rule(rule_r8, prog, res)
+    res.run_rule(rule_r9, prog, res)
 
 
 _N = 'spyne/server/null.py'
@@ -748,6 +806,12 @@ _A = 'spyne/application.py'
 _D = 'spyne/descriptor.py'
 
 MUTANTS = [
+    Mutant('message-looked-up-by-type-name', 'R9', 'fire',
+           'spyne/protocol/dictdoc/hier.py',
+           in_func('HierDictDocument.deserialize',
+                   "class_name = body_class.get_element_name()",
+                   "class_name = self.get_class_name(body_class)"),
+           'message-key'),
     Mutant('prefetch-with-unique-sentinel', 'R8', 'silent',
            'spyne/server/wsgi.py',
            in_func('WsgiApplication.handle_rpc',
